@@ -59,6 +59,33 @@ def specDispatch (sys : Sys) (n : String) (ev : Obj) (now : Int) : Json :=
     | .ok l => okJ (found2J l)
     | .error e => errJ e
 
+/-- Effects of `Env.AddFact` actions (template "addfact"), applied in walk order after the pure event model ran:
+a refused add (write key, capacity, disabled …) makes the script throw, i.e. the action node fails. -/
+def applyEffects (sys : Sys) (c : Ctx) (n : String) (now : Int) (cands : List (String × RuleM × Bool)) (t : Tree) : Sys × Tree :=
+  let actionsOf (id : String) : List J := match cands.find? (fun x => x.1 == id) with | some (_, r, _) => r.actions | none => []
+  let stepAct (acc : Sys × List ActNode) (pa : ActNode × J) : Sys × List ActNode :=
+    let (a, act) := pa
+    let tmpl := match act with | .obj o => (Obj.get? o "verif_tmpl").getD .null | _ => .null
+    match tmpl with
+    | .obj o =>
+      if a.ok && Obj.get? o "t" == some (.str "addfact") then
+        let id := match Obj.get? o "id" with | some (.str i) => i | _ => ""
+        let fact := match Obj.get? o "fact" with | some (.obj f) => f | _ => []
+        match acc.1.at n (locAddFact c id fact now) with
+        | (s1, .ok _) => (s1, acc.2 ++ [a])
+        | (s1, .error _) => (s1, acc.2 ++ [{ ok := false, value := .null }])
+      else (acc.1, acc.2 ++ [a])
+    | _ => (acc.1, acc.2 ++ [a])
+  let (sys', rules') := t.rules.foldl (fun (acc : Sys × List RuleNode) r =>
+    let acts := actionsOf r.id
+    let (s1, conds') := r.conds.foldl (fun (acc2 : Sys × List CondNode) cn =>
+      let paired := cn.acts.zipIdx.map (fun (a, i) => (a, acts.getD (if acts.length == 0 then 0 else i % acts.length) .null))
+      let (s2, acts') := paired.foldl stepAct (acc2.1, [])
+      (s2, acc2.2 ++ [{ cn with acts := acts' }])) (acc.1, [])
+    (s1, acc.2 ++ [{ r with conds := conds' }])) (sys, [])
+  let vals := rules'.flatMap (fun r => r.conds.flatMap (fun cn => (cn.acts.filter (·.ok)).map (·.value)))
+  (sys', { t with rules := rules', values := vals })
+
 def stepOp (sys : Sys) (op : Json) : Sys × Json :=
   let n := jstr op "loc"
   let now := jint op "now"
@@ -147,7 +174,8 @@ def stepOp (sys : Sys) (op : Json) : Sys × Json :=
          let en := match r with | .ok b => b | .error "disabled" => false | .error _ => true
          (s1, acc.2 ++ [(idr.1, idr.2, en)])) (s, [])
        let t := processEvent (srchOf s' c n now) n ev withEn
-       (s', (treeJ t).setObjVal! "spec" spec))
+       let (s'', t') := applyEffects s' c n now withEn t
+       (s'', (treeJ t').setObjVal! "spec" spec))
   | "sleep" => (sys, okJ (Json.bool true))
   | o => (sys, errJ ("unknown op " ++ o))
 
